@@ -412,6 +412,8 @@ def d_index(cx, bi, t):
     if od and od[0] == "def" and od[1]["kind"] == "assign" and od[1]["stmt"]["rv"]["k"] == "aggregate" and "ops::Range" in od[1]["stmt"]["rv"].get("adt", ""):
         rv = od[1]["stmt"]["rv"]
         kind = rv["adt"].split("::")[-1]
+        if kind == "RangeFull":
+            return ("full-range", "`x[..]` is the whole slice: no bound to violate")
         n = cx.static_len(recv)
         ln = lf_const(n) if n is not None else None
         if ln is None:
